@@ -28,86 +28,51 @@ CLAIMED = {
              "model-vs-implementation correspondence run"),
 
     "C03": dict(
-        text="Lean 4 model of NodeIter (odometer over the ordinary key lookup) and of traverse_by_key/Transcode; theorems so far: "
-             "leaf count of the enumeration = Metadata.count, unreachable TooLong arm; the flagship enumeration theorem "
-             "(nodes = leaves in order) is in progress. Every run compares the complete item sequence of nodes::<N,D>() for "
-             "7 target representations (plain and exact-size) on every corpus type with the model and with a brute-force "
-             "enumeration of the generated schema.",
-        note="PARTIAL proof: enumeration theorem not yet machine-checked; the iteration order/completeness claim currently "
-             "rests on the correspondence + oracle run over the corpus (~55 types). Trusted: Lean kernel, typegen.py/spec.py, rt.rs.",
-        tech="Lean 4 model + (partial) theorems; model-vs-implementation correspondence and schema-enumeration oracle"),
+        text="Lean 4 theorem nodes_enumerates_leaves: for every well-formed type, every state depth D >= max_depth and every target that does not run out of capacity, polling a fresh NodeIter n times returns exactly the first n leaves in depth-first declaration order (each once, nothing in between, each with the target transcoded along that very leaf and its depth) and None from then on, for every n; plus: yielded target = transcoding of the leaf's own key; (), index arrays accept; leaves = orbit of the odometer successor; leaf count = Metadata.count. Proof: successor-with-carry orbit (Lemmas/Enum), traversal of the state array as a pure recursion (IdxWalk), induction over the carry chain (IterEnum). Every run compares the complete item sequence of nodes::<N,D>() for 7 target representations on every corpus type with the model and a brute-force enumeration, and evaluates the theorem's hypotheses (WF, Small) on every corpus type.",
+        note='Model of NodeIter/traverse_by_key is hand-written and tied by the correspondence run. Trusted: Lean kernel, typegen.py/spec.py, rt.rs.',
+        tech='Lean 4 proof (successor orbit + carry-chain induction over a hand-written model) + model-vs-implementation correspondence and schema-enumeration oracle'),
     "C04": dict(
-        text="Lean 4 theorems: Chain of two key lists = their concatenation for every schema/callback (via a general "
-             "bisimulation theorem: step-wise agreeing key sources are interchangeable on every schema); per-representation "
-             "left-inverse theorems in progress. Every run transcodes every node of every corpus type between 9 source and "
-             "10 target representations, checks the recording callback and Chain at every split point.",
-        note="PARTIAL proof: render/read left-inverse per representation not yet machine-checked. Trusted: Lean kernel, "
-             "hand-written model tied by the correspondence run, typegen.py/spec.py.",
-        tech="Lean 4 proof (bisimulation over schema induction) + exhaustive-over-corpus correspondence and oracle"),
+        text="Lean 4 theorems: chaining = concatenation (bisimulation of key sources); traverse_factor: every traversal with any key source factors through a valid node path with exactly one callback per consumed key carrying that level's index, name and sibling count (callback_once_per_key: Ok depth = number of callbacks); any_key_any_target: what a target with enough capacity holds is a function of that path only, equal to what the position tuple produces, so all keys of one node are interchangeable; index_form_is_position (+ fixpoint); packed_form_resolves (the packed form decodes back to the node). Every run transcodes every node of every corpus type between 9 source and 10 target representations, checks the recording callback and Chain at every split point.",
+        note="The text forms (Path, JsonPath: render, split, look names up again) are covered by C15's splitter theorems and the runs; their end-to-end round trip is not a theorem. bv_decide axioms via the packed-word lemmas.",
+        tech='Lean 4 proof (factorisation by schema induction, bisimulation) + exhaustive-over-corpus correspondence and oracle'),
     "C06": dict(
-        text="Lean 4 theorems for every schema: Metadata.count = number of leaves; max_depth exceeded by no leaf and attained by "
-             "one (mutual structural induction over the nested schema). max_length/max_bits exactness in progress. Every run "
-             "compares Metadata and a recording Walk with brute force on every corpus type (array lengths straddling powers "
-             "of 2 and 10) and transcodes every node into buffers sized from the metadata.",
-        note="PARTIAL proof: max_length / max_bits exactness and the buffer-sufficiency corollary are currently only checked "
-             "by the correspondence + oracle run. Assumes count < 2^64.",
-        tech="Lean 4 proof by structural induction + correspondence/oracle run"),
+        text="Lean 4 theorems for every schema: count = number of leaves; max_depth, max_bits and max_length are each attained by some leaf and exceeded by none (generic per-level weights, digits monotone); buffers_suffice: an index array of max_depth slots holds every node's key (= its position tuple) and, when max_bits <= 63, a packed word holds every node's key using at most max_bits bits. Every run compares Metadata and a recording Walk with brute force on every corpus type (array lengths straddling powers of 2 and 10) and transcodes every node into buffers sized from the metadata.",
+        note='Path-buffer sufficiency (max_length + separators) is checked by the run only. bv_decide axioms via the packed-word lemmas. Assumes count < 2^64.',
+        tech='Lean 4 proof by structural induction + correspondence/oracle run'),
     "C09": dict(
-        text="Lean 4 theorem (on the definitions regenerated from packed.rs): one level of Transcode-for-Packed followed by "
-             "Keys-for-Packed returns the index and the previous key; path-level dec_enc/order theorems in progress on top of "
-             "C08's sequence theorem. Every run checks value, decode, uniqueness, order and width of the packed key of every "
-             "node of every corpus type.",
-        note="PARTIAL proof (single level). bv_decide axioms as in C08. max_bits ≤ 63.",
-        tech="Lean 4 proof (bv_decide + C08 lemmas) + correspondence/oracle run"),
+        text="Lean 4 theorems on the definitions regenerated from packed.rs: encode (for every node whose bit weight fits, Transcode-for-Packed succeeds without panic, = pushAll of the path's fields, uses exactly the path's bit weight), decode (the packed key used as a key walks to exactly that node: kind, depth, indices), unique (distinct nodes, distinct keys), bounded (weight <= max_bits, attained), append_stable (appending children without changing a level's width leaves existing keys unchanged), level_roundtrip. Every run checks value, decode, uniqueness, order and width of the packed key of every node of every corpus type.",
+        note='Numeric order = iteration order is checked by the run only. bv_decide axioms as in C08. max_bits <= 63.',
+        tech='Lean 4 proof (bv_decide word lemmas + list/path induction) + correspondence/oracle run'),
     "C11": dict(
-        text="Lean 4 model of NodeIter::{default, root, next} incl. the capacity arm; theorems so far: fused (exhausted state "
-             "stays exhausted for any fuel), fresh iterator not exhausted, TooLong arm unreachable; enumeration theorem in "
-             "progress. Every run iterates every corpus type for every depth limit, every (sampled) node as root in several "
-             "key representations, index/path capacities from 0 to sufficient, polling past the end.",
-        note="PARTIAL proof: exactness of rooted/limited enumeration rests on the correspondence + oracle run.",
-        tech="Lean 4 model + (partial) theorems; correspondence and brute-force oracle"),
+        text='Lean 4 theorems: fused; full_depth_exact (from the tree root with D >= max_depth and an accepting target: the leaves in order, then None for ever, never more than D+2 loop passes, no panic site); exact_size_remaining (the ExactSize counter started at Metadata::count reports the number of leaves not yet yielded after every call, never underflows, is 0 on None). Every run iterates every corpus type for every depth limit, every (sampled) node as root in several key representations, index/path capacities from 0 to sufficient, polling past the end.',
+        note='PARTIAL proof: roots below the tree root, depth limits below max_depth and targets without capacity (error items) rest on the correspondence + oracle run.',
+        tech='Lean 4 proof (corollaries of the C03 enumeration theorem) + correspondence and brute-force oracle'),
 
     "C01": dict(
-        text="Lean 4 theorems on the value-level walk model (Model/Tree.lean: every container/wrapper/attribute, every runtime "
-             "state, every key source, arbitrary (de)serializer): a failing access other than a validator rejection leaves the "
-             "whole tree unchanged; reads never modify (mutual structural induction). Frame theorem for successful writes in "
-             "progress. Every run executes random read/write histories on every instance and compares whole-tree snapshots "
-             "(generated plain field access) with the Lean model and an independent Python reference interpreter.",
-        note="PARTIAL proof: 'exactly the designated leaf changes' for successful writes currently rests on the correspondence + "
-             "snapshot oracle. Accessors/validators must not alias other fields (generated ones own their storage).",
-        tech="Lean 4 proof by mutual structural induction over the nested tree + snapshot-based correspondence/oracle"),
+        text='Lean 4 theorems on the value-level walk model (every container/wrapper/attribute, every runtime state, every key source, arbitrary (de)serializer): failed_access_changes_nothing; read_never_modifies; at_most_one_leaf_changes (frame: after any access the tree is identical except for the value of at most one leaf); read_after_write (after a write that stored v, every successful read through the same key or any step-wise equivalent key source returns v, also after the documented exceptions); chain_equivalent. Every run executes random read/write histories on every instance and compares whole-tree snapshots with the Lean model and an independent Python reference interpreter; the hypotheses (Tree.WF) are evaluated on every corpus instance.',
+        note='Accessors/validators must not alias other fields (generated ones own their storage). Histories are covered as repeated single steps.',
+        tech='Lean 4 proof by mutual structural induction over the nested tree + snapshot-based correspondence/oracle'),
     "C02": dict(
-        text="Lean 4 theorems stating the per-node step order as equations of the walk (surplus keys before value access, closed "
-             "container first, key lookup before variant/deny/accessor, absent variant at the consumed key's depth, flatten adds "
-             "no depth); global walk = top-down reference walk theorem in progress. Every run compares serialize/deserialize/"
-             "ref_any/mut_any outcomes (kind, depth, message, log, snapshot) on every instance × node path × malformed key "
-             "alphabet × key representation with the model and the independent Python top-down interpreter (37k cases quick).",
-        note="PARTIAL proof (local step equations; the global depth-bookkeeping theorem is pending).",
-        tech="Lean 4 theorems over the hand-written walk model + three-way differential run (implementation, Lean model, Python oracle)"),
+        text='Lean 4 theorems: one_walk (for every well-formed tree, runtime state, operation, codec and key source the result is either pre-empted by something state/value dependent, or exactly the outcome of the type-level traversal of the erased type); operations_agree (any two operations/codecs/states of one type agree unless pre-empted); structural_depths (Ok/TooShort/TooLong carry the number of keys consumed, NotFound one more); indices_in_range; the per-node step order as equations. Every run compares serialize/deserialize/ref_any/mut_any outcomes on every instance x node path x malformed key alphabet x key representation with the model and the independent Python top-down interpreter.',
+        note='The depth of pre-empting errors (Absent/Access/Invalid) is given by the step equations and the run, not by a global theorem.',
+        tech='Lean 4 proof (mutual induction relating the value-level walk to the type-level traversal) + three-way differential run'),
     "C05": dict(
-        text="Lean 4 codec model (JSON text and postcard bytes for the leaf universe) with theorems for zig-zag bijection and "
-             "bool/unit JSON round trip; integer/option/array/string round-trip theorems in progress. Every run writes every "
-             "sample value to every leaf, reads it back with every buffer length 0..len+1, writes the read text back, and does "
-             "the same through postcard incl. short buffers and trailing bytes; floats bit-exact on the implementation only.",
-        note="PARTIAL proof. serde-json-core / postcard / ryu are modelled, not verified (trusted as validated by the "
-             "differential run); strings without JSON escapes.",
-        tech="Lean 4 codec model + (partial) round-trip theorems; exhaustive-over-corpus correspondence and oracle"),
+        text='Lean 4 theorems on the codec model: json_roundtrip (every integer width incl. extremes, bool, unit, Option of non-nullable types, strings without escapes, arrays, nested structs, string-tagged enums: decoding the canonical text returns the value and exactly the continuation), json_set_of_get (clean finalisation, exact byte count), postcard_roundtrip (LEB128 + zig-zag for every width, raw byte for 8 bit, bool, unit, Option, arrays, structs, enums), varint_roundtrip, write_back_identity, read_back, small_buffer_no_partial. Every run writes every sample value to every leaf, reads it back with every buffer length, writes the read text back, and does the same through postcard.',
+        note='serde-json-core / postcard / ryu are modelled, not verified (tied by the differential run). Not theorems: floats (opaque), postcard strings (UTF-8), JSON escapes.',
+        tech='Lean 4 proof (digit/varint inductions, mutual induction over values) over a hand-written codec model + exhaustive-over-corpus correspondence'),
     "C12": dict(
-        text="Lean 4 theorems: validators never run on serialize/ref_any/mut_any (global, by induction over the tree); field-level "
-             "protocol as equations: deny stops with Access(0,msg) before any accessor, failing accessor is called once and "
-             "stops the walk, reads use get / writes use get_mut, validator runs only after Ok(depth), receives that depth and "
-             "may keep/replace/reject. Every run drives all single, pairwise and random gate combinations on every attributed "
-             "type and compares the real call log with model and Python oracle.",
-        note="Path-level ordering (top-down getters, bottom-up validators) follows from the recursive structure of the model and "
-             "is additionally checked by the run; a standalone ordering theorem is pending.",
-        tech="Lean 4 proof (structural induction + unfolding equations) + call-log correspondence/oracle"),
+        text='Lean 4 theorems: call_order (for every tree/state/operation/key the call log is a block of accessor calls followed by a block of validator calls); validators_only_after_success (any result other than Ok or a validator rejection means no validator ran); validators_only_on_de; field-level protocol as equations (deny stops with Access before any accessor, failing accessor is called once and stops the walk, reads use get / writes use get_mut, validator receives the depth from below and may keep/replace/reject). Every run drives all single, pairwise and random gate combinations on every attributed type and compares the real call log.',
+        note="'Each at most once' per field follows from the recursion (one call site per level) and is checked by the run.",
+        tech='Lean 4 proof (mutual structural induction + unfolding equations) + call-log correspondence/oracle'),
     "C16": dict(
         text="Lean 4 theorems: PathIter and JsonPathIter never slice off a char boundary for any string/separator; every shift "
              "amount and subtraction in the generated packed.rs arithmetic is in range under the documented argument contract; "
-             "LSB conversions never reach unreachable!(); key width ≤ 63 for ≤ 2^63 children. Totality of the tree walk pending. "
+             "LSB conversions never reach unreachable!(); key width ≤ 63 for ≤ 2^63 children; walk_total / traverse_total / keys_total: no "
+             "panic value is reachable from any by-key operation, type-level traversal or key source on a well-formed tree whose "
+             "lookups fit (every index a key source yields is in range). "
              "Every run feeds arbitrary strings/integers/words/chains/payloads/buffers to every instance and type under "
              "catch_unwind (dev profile; release in the thorough tier).",
-        note="PARTIAL: panics inside third-party crates are only excluded by the runs. Open known finding F5 (node with > 2^63 "
+        note="Panics inside third-party crates (serde, heapless, …) are outside the model and only excluded by the runs. Open known finding F5 (node with > 2^63 "
              "children × Packed) is reported as KNOWN-FINDING.",
         tech="Lean 4 proofs for splitters and packed arithmetic + panic-catching correspondence run"),
 
